@@ -69,7 +69,9 @@ type onceState struct {
 // controller is exhausted.
 type BudgetExceeded struct{ Ticks int64 }
 
-func (b BudgetExceeded) Error() string { return fmt.Sprintf("vhook: step budget exceeded (%d ticks)", b.Ticks) }
+func (b BudgetExceeded) Error() string {
+	return fmt.Sprintf("vhook: step budget exceeded (%d ticks)", b.Ticks)
+}
 
 // Controller owns one generated execution.
 type Controller struct {
